@@ -406,7 +406,7 @@ def replay(func, cex):
         finally:
             lian_config.MAX_ROWS = REAL_MAX_ROWS
             shutil.rmtree(base, ignore_errors=True)
-        kinds = "".join("SGEC"[o[0]] for o in ops)
+        kinds = "".join("SGECR"[o[0]] for o in ops)
         return {"violated": bool(why), "observed": why,
                 "what": f"{cex['family']} caps(item,bundle,MAX_ROWS)={cex['caps']}: {describe_ops(ops)} -> {why}",
                 "fingerprint": f"loader:{cex['family']}:{kinds}"}
